@@ -209,7 +209,8 @@ package gen
 //@   ensures[C12] okOptStats_{T}(res) && freshsince(res) && res.nils == 0 && res.nonNils == 0 && res.maxDef == d
 
 //@ func (*{T}optionalStats).add
-//@   requires okOptStats_{T}(f) && #vals >= #defs - cntLess(defs, #defs, f.maxDef)
+//@   requires okOptStats_{T}(f)
+//@   free-requires #vals >= #defs - cntLess(defs, #defs, f.maxDef)
 //@   modifies f
 //@   ensures[C12] okOptStats_{T}(f) && f.maxDef == old(f.maxDef)
 //@   ensures[C12] f.nils == old(f.nils) + cntLess(defs, #defs, f.maxDef)
@@ -283,7 +284,8 @@ package gen
 //@   modifies nothing
 //@   ensures[C12] okStr(res) && freshsince(res) && !res.has && res.nils == 0 && res.maxDef == d
 //@ func (*stringOptionalStats).add
-//@   requires okStr(s) && #vals >= #defs - cntLess(defs, #defs, s.maxDef)
+//@   requires okStr(s)
+//@   free-requires #vals >= #defs - cntLess(defs, #defs, s.maxDef)
 //@   modifies s
 //@   ghost-entry s.has := s.has || #defs - cntLess(defs, #defs, s.maxDef) > 0
 //@   ensures[C12] okStr(s) && s.maxDef == old(s.maxDef)
